@@ -15,6 +15,14 @@ CHECKS = {
              "arbitrarily many consecutive uses (closed state graph of a cyclic driver), plus every schedule with <=3 preemptions of "
              "K=9 consecutive uses whose verdict does not depend on the digest.",
         note="Sequentially consistent interleavings only; thread counts <=4; digest completeness for the cyclic runs."),
+    "C15": dict(
+        engine="rsched", technique="preemption-bounded exhaustive interleaving exploration of the real lock-free queue + stateful "
+        "complete-state search, linearizability-style oracle from call/return stamps",
+        level="model_checking", design_ref="DESIGN.md 4/C15",
+        text="Every schedule with <=2 preemptions (atomic-operation and call granularity) of 1-3 producers against every consumer "
+             "operation string in {extract,peek}^5 plus drain, ties and a pre-cancelled entry included; complete state graph for "
+             "selected strings (thorough: all 32, also with spurious CAS failures).",
+        note="Sequentially consistent interleavings only; <=6 messages, <=3 producers; digest completeness for the stateful runs."),
 }
 
 NOT_YET = "check not built yet (work in progress; see DESIGN.md section 7)"
